@@ -76,8 +76,8 @@ func (i IPv4Option) String() string {
 
 // for the current ipv4 options, return the number of bytes (including
 // padding that the options used)
-func (ip *IPv4) getIPv4OptionSize() uint8 {
-	optionSize := uint8(0)
+func (ip *IPv4) getIPv4OptionSize() int {
+	optionSize := 0
 	for _, opt := range ip.Options {
 		switch opt.OptionType {
 		case 0:
@@ -87,7 +87,7 @@ func (ip *IPv4) getIPv4OptionSize() uint8 {
 			// this is the padding
 			optionSize++
 		default:
-			optionSize += opt.OptionLength
+			optionSize += int(opt.OptionLength)
 
 		}
 	}
@@ -102,12 +102,16 @@ func (ip *IPv4) getIPv4OptionSize() uint8 {
 // SerializationBuffer, implementing gopacket.SerializableLayer.
 func (ip *IPv4) SerializeTo(b gopacket.SerializeBuffer, opts gopacket.SerializeOptions) error {
 	optionLength := ip.getIPv4OptionSize()
-	bytes, err := b.PrependBytes(20 + int(optionLength))
+	// IHL counts 32 bit words in 4 bits, which leaves 40 bytes for options
+	if optionLength > 40 {
+		return fmt.Errorf("IP options too long (%d bytes), the maximum is 40", optionLength)
+	}
+	bytes, err := b.PrependBytes(20 + optionLength)
 	if err != nil {
 		return err
 	}
 	if opts.FixLengths {
-		ip.IHL = 5 + (optionLength / 4)
+		ip.IHL = uint8(5 + (optionLength / 4))
 		ip.Length = uint16(len(b.Bytes()))
 	}
 	bytes[0] = (ip.Version << 4) | ip.IHL
@@ -136,9 +140,6 @@ func (ip *IPv4) SerializeTo(b gopacket.SerializeBuffer, opts gopacket.SerializeO
 			bytes[curLocation] = 1
 			curLocation++
 		default:
-			bytes[curLocation] = opt.OptionType
-			bytes[curLocation+1] = opt.OptionLength
-
 			// the type and length bytes occupy two octets, so a non-trivial
 			// option must declare a length of at least 2. without this guard
 			// opt.OptionLength-2 underflows below and the copy slices a
@@ -146,6 +147,8 @@ func (ip *IPv4) SerializeTo(b gopacket.SerializeBuffer, opts gopacket.SerializeO
 			if opt.OptionLength < 2 {
 				return fmt.Errorf("invalid IP option type %v length %d, must be greater than 2", opt.OptionType, opt.OptionLength)
 			}
+			bytes[curLocation] = opt.OptionType
+			bytes[curLocation+1] = opt.OptionLength
 
 			// sanity checking to protect us from buffer overrun
 			if len(opt.OptionData) > int(opt.OptionLength-2) {
